@@ -135,6 +135,22 @@ LANG_FAULTS = [
     ('double-hyphen-in-comment', '<!-- a -- b -->', r'(<!-- a -- b -->)'),
     ('attributes-on-tal-element', '<tal:block attributes="a 1">x</tal:block>', r'(<tal:block [^>]*>)'),
     ('tal-script', '<p tal:script="x">x</p>', r'(tal:script="x")'),
+    # a missing expression: the (empty) token must still stand inside the offending attribute
+    ('empty-define-part', '<p tal:define="x 1; a ">x</p>', r'tal:define="x 1; a( )"'),
+    ('empty-content', '<p tal:content="">x</p>', r'tal:content=("")'),
+    ('empty-replace-structure', '<p tal:replace="structure ">x</p>', r'tal:replace="structure( ")'),
+    ('empty-repeat', '<p tal:repeat="item ">x</p>', r'tal:repeat="item( ")'),
+    ('empty-condition', '<p tal:condition="">x</p>', r'tal:condition=("")'),
+    ('empty-on-error', '<p tal:on-error="">x</p>', r'tal:on-error=("")'),
+    ('repeat-with-two-parts', '<p tal:repeat="a b; c d">x</p>', r'(tal:repeat="a b; c d")'),
+    ('unknown-expression-type', '<p tal:content="nosuch: x">x</p>', r'(tal:content="nosuch: x")'),
+    ('unknown-expression-type-interpolation', '<p>${nosuch: x}</p>', r'(\$\{nosuch: x\})'),
+    # reserved names at non-local binding sites
+    ('reserved-global-define', '<p tal:define="global __x 1">x</p>', r'global (__x) 1'),
+    ('reserved-global-define-second', '<p tal:define="a 1; global econtext 2">x</p>', r'global (econtext) 2'),
+    ('reserved-global-tuple', '<p tal:define="global (b, rcontext) (1, 2)">x</p>', r'\(b, (rcontext)\)'),
+    ('reserved-global-repeat', '<p tal:repeat="global __z (1,)">x</p>', r'global (__z) '),
+    ('reserved-tuple-define', '<p tal:define="(b, __y) (1, 2)">x</p>', r'\(b, (__y)\)'),
     ('content-with-translate-id', '<p tal:content="a" i18n:translate="id">x</p>', r'(<p [^>]*>)'),
 ]
 
@@ -261,7 +277,11 @@ def run(ctx):
         except Exception as e:
             res = ('non-template-error', '%s: %s' % (type(e).__name__, str(e).split('\n')[0][:100]))
         ctx.case(key=('lang', lk, bool(lead)), nontrivial=True)
-        if res is not None:
+        if res is not None and lk.startswith('unknown-expression-type') and res[0] == 'non-template-error' \
+                and res[1].startswith('LookupError: Unknown expression type'):
+            ctx.violation('unknown-expression-type-raises-LookupError', 'language error %s in %r: %s' % (lk, full, res[1]),
+                          {'kind': 'lang', 'src': full})
+        elif res is not None:
             ctx.violation('lang-%s-%s' % (lk, res[0]), 'language error %s in %r: %s' % (lk, full, res[1]),
                           {'kind': 'lang', 'src': full})
 
